@@ -52,6 +52,7 @@ out.append('* `C11-e1`: a short all-in lowers the minimum raise, so a player who
 out.append('* `C04-e1`: an overflow in the below-the-wager test of `Raise` for levels next to `MinInt64`. The action (raise) was offered, so C04 is not concerned; it is C12\'s "a request below the current wager is refused", and **C12 catches the change** (`below-wager-not-refused/huge`).')
 out.append('* `C04-f1`: the preflop round is skipped when only one seat still has chips after the blinds, although the other seat owes part of the big blind. No betting round takes place, so there is no turn order to get wrong; what is broken is C05\'s "never closed while a player with chips has put in less than the wager to match", and **C05 catches the change** (`closed-early/owes`).')
 out.append('* `C04-f2`: a second posting of the blinds by a seat that has posted *on its own through the per-player method* (`Player(i).PayBlinds()`) is refused half-way through the table operation. On the pinned code that very sequence charges the seat twice: per-player posting followed by the table operation is not a sequence the engine supports (nothing in the repository does it), so the generators do not produce it, and a check that did would alarm on the unchanged tree.')
+out.append('* `C14-g1`: only shows in a configuration that requires more hole cards than a player holds (3 required of 2). The pinned engine accepts that configuration but cannot evaluate it (it reports four-card "hands"), so it is not among the accepted configurations the generators draw from.')
 out.append('* `C19-f1`: only shows when a table *refuses* the players the regulator assigns to it (the assign callback returns an error). C09/C19/C20 are stated for "tables that follow its instructions"; on the pinned code a refusing table already loses the refused players or makes the dispatch loop spin, so refusals are outside the domain (listed under the assumptions of these checks).')
 out.append('')
 out.append('### 10.3 Changes that keep every property (false-alarm experiment)\n')
@@ -75,6 +76,21 @@ out.append('Result: silent on all twelve (quick tier), with one exception that w
 out.append('')
 out.append('### 10.4 Silence on the unchanged tree\n')
 out.append('Quick tier at `VERIF_SEED` 1..7 for all 20 properties (140 runs, machine busy with other runs): 140 x OK. Thorough tier at seed 1: 20 x OK (1-11 min each under load). `vp check` (fresh copy of the sandbox, `setup_cmd`, every quick command): nothing needed attention.')
+# ---- 10.5 systematic mutation
+import subprocess, os
+if os.path.exists('/verif/tools/mutation/results.json'):
+    tab = subprocess.run(['python3', '/verif/tools/mutclass.py'], stdout=subprocess.PIPE, text=True).stdout.strip()
+    pa = json.load(open('/verif/tools/mutation/phaseA.json'))
+    import collections
+    ca = collections.Counter(m['phaseA'] for m in pa)
+    out.append('')
+    out.append('### 10.5 Systematic single-site mutation\n')
+    out.append(f"`tools/mutgen` (go/ast) lists every single-site mutant of the anchored source files - relational, logical and arithmetic operator swaps, integer literals +-1, `true`/`false`, negation removed, `if` conditions forced to `true`/`false`, assignments / calls / `continue` / `break` / `defer` deleted; for `table/` and `match/` only the functions the properties are anchored in. `tools/mutrun.py phaseA` builds each and runs the 61 tests: of {len(pa)} mutants {ca['nobuild']} do not build, {ca['killed-by-tests']} are killed by the existing tests, {ca['tests-timeout']} hang them, and **{ca['survived-tests']} pass all 61 tests**. `phaseB` runs the checks of the properties anchored in the mutated file against each of these (first pass at a quarter of the quick budget, stopping at the first check that reports; second passes at the full quick budget for the groups reviewed below). Result per file (`tools/mutation/results.json`; categories assigned by the review rules in `tools/mutclass.py`, written to `tools/mutation/classification.json`):\n")
+    out.append(tab)
+    out.append('')
+    out.append('E = equivalent on every reachable state (dead or redundant code: guards repeated one level down, values reset before they are read, loops that return in their first turn, fields that are written and never read); I = only an informational field changes that no listed property mentions (`did_action`, `last_action`, `vpip`, `max_wager`, `winners[].withdraw`, `game_idx`); P = behaviour the properties leave open (when exactly waiting players are let in, balancing thresholds of the regulator, extra offers at a boundary, the size of the minimum bet, the pot-limit cap, whether the deck is shuffled, `Bet(0)`, which open seat `Join(any)` takes); H = helpers and API outside every listed property (`GameState.HasAction`..., `GetAvailableSeatCount`, position setters, the table\'s auto-start, option defaults, values returned next to an error); X = the mutant does not return from a call or kills the process - the check ends inconclusive (exit 2) unless the death is a Go runtime fatal error inside the code under test, which C18 / C06 / C09 report. The classification is a review by function and source line, not a proof; the column `?` counts what was not reviewed.')
+    out.append('')
+    out.append('What the experiment changed in the checks: (1) a closed hand that carries **no settlement result** was only reported by C06; it now violates C02 as well (`engine/no-result`). (2) C13 did not generate **button-blind / ante-only games** (SB = BB = 0): a dealer blind of exactly 1 that is never asked for slipped through; the grid and the rapid stage now contain these layouts (`game.go` `RequestBlinds` mutants are caught). (3) A deck constructor that returns a different deck made the *generator* crash (exit 2): generation now uses the harness\' own 52 / 36 cards, the engine\'s constructors are only used where a hand is deliberately started with them, and C14 checks `dealt-twice` there. (3b) Round 7 of the seeded changes showed that one of the surviving seat-manager mutants classified as *open policy* (`renewSeatStatus`, heads-up branch taken for every player count) does break C08\'s "not before": the newcomer scenarios now also contain sat-out players who come back, and the mutant is caught. (4) A missing `Lock()` in front of a deferred `Unlock()` kills the process with a runtime fatal error: the driver now attributes such a death inside the code under test to C18 (seats), C06 (engine) or C09 (regulator) and writes a replay that re-runs the dying process; (5) calls that never return (loop counters removed, a missing `Unlock`) are ended by a watchdog after 90 s with an inconclusive result instead of holding the check until the test deadline. (6) C13, C12 and C11 had been left out of the first-pass check lists of `action.go` / `event.go` / `game.go`; the second pass with them caught the blind-posting mutants listed as caught above.')
 s = open('/verif/DESIGN.md').read()
 a = s.index('<!-- SENSITIVITY-TABLES-BEGIN -->') + len('<!-- SENSITIVITY-TABLES-BEGIN -->')
 b = s.index('<!-- SENSITIVITY-TABLES-END -->')
